@@ -162,10 +162,11 @@ def pipeline_cases(draw):
         i = draw(st.integers(0, len(steps) - 1))
         if "." not in steps[i][0]:
             steps[i][0] = steps[i][0] + ".only"
-    ops = ["check"] + draw(st.lists(st.sampled_from(["check", "run", "run"]), min_size=1, max_size=4))
+    ops = ["check"] + draw(st.lists(st.sampled_from(["check", "run", "run", "check_perm"]), min_size=1, max_size=4))
+    perm_seed = draw(st.integers(0, 1000))
     edit = draw(st.sampled_from(["swap", "delete", "duplicate", "insert"]))
     return {"pair": pair, "pipeline": steps, "disp": [draw(st.integers(-3, 0)), draw(st.integers(0, 3))], "ops": ops,
-            "ns": ns, "edit": [edit, draw(st.integers(0, 50)), draw(st.sampled_from(dfa.KINDS))]}
+            "ns": ns, "perm_seed": perm_seed, "edit": [edit, draw(st.integers(0, 50)), draw(st.sampled_from(dfa.KINDS))]}
 
 
 def model_trace(names, ns):
@@ -227,6 +228,34 @@ def pipeline_body(ctx: Ctx, p: dict) -> None:
     n_ok = 0
     checked = None
     for op in p["ops"]:
+        if op == "check_perm":
+            # the same steps in another legal order (each phase permuted within itself), on the machine that has history
+            i_d = kinds.index("disparity")
+            rot = 1 + p.get("perm_seed", 0) % 3
+            cvp, post = steps[1:i_d], steps[i_d + 1:]
+            cvp = cvp[rot % len(cvp):] + cvp[:rot % len(cvp)] if cvp else cvp
+            post = post[rot % len(post):] + post[:rot % len(post)] if post else post
+            steps = [steps[0]] + cvp + [steps[i_d]] + post
+            names = [n for n, _ in steps]
+            kinds = [dfa.kind_of(n) for n in names]
+            tag = f"names={names} ns={ns} (re-ordered on a used machine)"
+            fresh = drive.check_pipeline(PandoraMachine(), gen.pipe_dict(steps), l, r)
+            first_checked = first_margins = first_trace = first_left = first_right = None
+            op = "check"
+            try:
+                checked = drive.check_pipeline(machine, gen.pipe_dict(steps), l, r)
+            except Exception as exc:  # noqa: BLE001
+                ctx.violation("C01/legal-pipeline-rejected", f"{tag}: {type(exc).__name__}: {str(exc)[:120]}")
+                break
+            if list(checked["pipeline"]) != names:
+                ctx.violation("C01/checked-pipeline-reordered-or-truncated", f"{tag}: {list(checked['pipeline'])}")
+            if not build._eq(fresh, checked):
+                ctx.violation("C01/check-depends-on-machine-history", tag)
+            first_checked, first_margins = copy.deepcopy(checked), machine.margins.to_dict()
+            if not machine_clean(machine):
+                ctx.violation("C01/machine-not-reset-after-check", f"{tag}: state={machine.state}")
+            n_ok += 1
+            continue
         if op == "check":
             try:
                 checked = drive.check_pipeline(machine, gen.pipe_dict(steps), l, r)
@@ -318,6 +347,8 @@ def pipeline_body(ctx: Ctx, p: dict) -> None:
         classes.append("illegal-mutant")
     if p["ops"].count("run") >= 2:
         classes.append("run-twice")
+    if "check_perm" in p["ops"]:
+        classes.append("re-ordered-on-used-machine")
     ctx.case(p, nontrivial=bool(len(names) >= 3 and n_ok >= 2), classes=classes)
 
 
